@@ -197,6 +197,7 @@ UNITS["gens_chain"] = {
     "pieces": types() + [
         items("src/generators/generators_chain.rs", ["GeneratorsChain"]),
         fns("src/generators/generators_chain.rs", "impl GeneratorsChain<P> {", "GeneratorsChain", fns=["new"], impl_filter="implGeneratorsChain<P>", opdesugar=False, renames="enumerate"),
+        fns("src/generators/generators_chain.rs", "impl GeneratorsChain<P> {", "GeneratorsChain", fns=["default"], impl_filter="implDefaultforGeneratorsChain<P>", opdesugar=False),
         fns("src/generators/generators_chain.rs", "impl GeneratorsChain<P> {", "GeneratorsChain", fns=["next"], impl_filter="implIteratorforGeneratorsChain<P>", opdesugar=False,
             subst=[("Option < Self :: Item >", "Option < P >")]),
         fns("src/protocols/curve_point_protocol.rs", "impl P {", "CurvePointProtocol", fns=["hash_from_bytes_sha3_512"], opdesugar=False, renames="enumerate"),
